@@ -4,6 +4,7 @@ import TriompheModel.WM.Weak
 import TriompheModel.Generated.Atomics
 import TriompheModel.Props.Gates
 import TriompheModel.WM.RelSeq
+import TriompheModel.WM.WeakAcq
 /-!
 # C02 — concurrent clone/drop: one destroyer, ordered after every thread's last access
 
@@ -117,6 +118,14 @@ theorem C02_release_needed :
     ¬ Weak.exX.hb (.oth (1 : Weak.EA)) (.oth (3 : Weak.EA)) ∧
     ¬ Weak.exX.hb (.oth (3 : Weak.EA)) (.oth (1 : Weak.EA)) :=
   ⟨Weak.ex_consistent, Weak.ex_protocol, Weak.release_needed.1, Weak.release_needed.2⟩
+
+/-- Necessity of the acquire before destruction: release decrements but a Relaxed load before
+`drop_slow` admit a consistent, protocol-following execution with the same race. -/
+theorem C02_acquire_needed :
+    Consistent WeakAcq.exX ∧ Protocol WeakAcq.exX .release (some .relaxed) ∧
+    ¬ WeakAcq.exX.hb (.oth (1 : WeakAcq.EA)) (.oth (3 : WeakAcq.EA)) ∧
+    ¬ WeakAcq.exX.hb (.oth (3 : WeakAcq.EA)) (.oth (1 : WeakAcq.EA)) :=
+  ⟨WeakAcq.ex_consistent, WeakAcq.ex_protocol, WeakAcq.acquire_needed.1, WeakAcq.acquire_needed.2⟩
 
 /-- the same under the *primitive* statement of synchronises-with (release sequences as in
 [intro.races]/5, RMW atomicity; `WM/RelSeq.lean` derives the index form from it) -/
